@@ -83,6 +83,8 @@ pub enum G {
     NestedIn(Box<G>),
     /// `(ExtWrap a)`: `Ext(W(a))` with `ExtParser::parse = inp.parse(&a)` and `ExtParser::check = inp.check(&a)`
     ExtWrap(Box<G>),
+    /// `(Skip n)`: `custom(|inp| { n times inp.skip(); Ok(()) })`
+    Skip(usize),
 }
 
 #[derive(Clone, Copy, Debug, PartialEq)]
@@ -691,6 +693,7 @@ pub fn parse_g(tk: Tk, s: &Sexp) -> R<G> {
         }
         ("NestedIn", [a]) => G::NestedIn(bg(a)?),
         ("ExtWrap", [a]) => G::ExtWrap(bg(a)?),
+        ("Skip", [n]) => G::Skip(nat(n)?),
         _ => return None,
     })
 }
@@ -724,7 +727,7 @@ impl G {
     pub fn has_fnew(&self) -> bool {
         let new = |f: &Fn1| *f == Fn1::New;
         match self {
-            G::End | G::Empty | G::Any | G::Just(_) | G::OneOf(_) | G::NoneOf(_) | G::Custom(..) => false,
+            G::End | G::Empty | G::Any | G::Just(_) | G::OneOf(_) | G::NoneOf(_) | G::Custom(..) | G::Skip(_) => false,
             G::JustCfg(_) | G::Var(_) => false,
             G::Select(_, f) => new(f),
             G::Map(f, a) | G::TryMap(_, f, _, a) | G::TryMapWith(_, f, _, a) | G::MapCtx(f, a) => {
